@@ -12,6 +12,7 @@ CLAIMS = {
  'C02': ("durable store, log framing only: every acknowledged log record is read back in order after a crash at any byte of the last record (immediate sync) or at any length above the synced length (manual sync), and after a further append + restart; slab contents/checkpoints are not decided", "§4 C02"),
  'C10': ("RaftWal: crash at every byte of the last record, reopen, append, restart: no acknowledged term/vote/log record is lost; recovery classification returns the last persisted term and vote", "§4 C10"),
  'C13': ("TxWal: same crash obligations as C10; TxRecoveryState::from_entries never resurrects a completed transaction, returns prepared ones with their votes, forgets preparing ones and lists orphaned lock handles exactly", "§4 C13"),
+ 'C15': ("both real Pratt loops (ExprParser and Parser) executed on symbolic token streams: for every pair of infix operators a OP1 b OP2 c groups per the documented precedence levels and left associativity, prefix operators bind tighter than every infix operator, token->operator map is injective; lexer/totality/depth/text-vs-engine equivalence not decided", "§4 C15"),
  'C17': ("newer-wins kernel is a strict order; the real merge gives the same view for every order/batching/repetition of the same updates; clock and incarnations never regress under any single operation", "§4 C17"),
 }
 NA = {
